@@ -258,7 +258,7 @@ def flattenUpToGo (reg : Registry) (nil : Bool) (ns : String) (numLeaves : Nat) 
               if co.numOut != 2 && co.numOut != 3 then .error .runtime
               else if node.data != .md co.md then .error .value
               else match co.children with
-                | Option.none => .error .runtime
+                | Option.none => .error .type_
                 | some cs => if cs.length != node.arity then .error .value else pushAll cs
 
 /-- `PyTreeSpec::FlattenUpTo` -/
